@@ -21,9 +21,9 @@ def sh(cmd, **kw):
     return p.returncode, p.stdout
 
 
-def worktree(path):
+def worktree(path, rev="HEAD"):
     sh(["git", "-C", "/repo", "worktree", "remove", "--force", path])
-    rc, out = sh(["git", "-C", "/repo", "worktree", "add", "-q", path, "HEAD"])
+    rc, out = sh(["git", "-C", "/repo", "worktree", "add", "-q", "--detach", path, rev])
     if rc != 0:
         raise SystemExit(out)
 
@@ -34,6 +34,13 @@ def confirm(src, name):
     res = {"name": name, "at": time.strftime("%Y-%m-%d %H:%M:%S")}
     try:
         rc, out = sh(["git", "-C", wt, "apply", os.path.join(src, "patch.diff")])
+        if rc != 0:
+            # written against an earlier fix commit of /repo: use the revision the author's worktree is at
+            rcb, base = sh(["git", "-C", src, "rev-parse", "HEAD"])
+            if rcb == 0:
+                worktree(wt, base.strip())
+                res["base"] = base.strip()
+                rc, out = sh(["git", "-C", wt, "apply", os.path.join(src, "patch.diff")])
         res["patch_applies"] = rc == 0
         if rc != 0:
             res["error"] = out[-1000:]
@@ -74,6 +81,8 @@ def confirm(src, name):
         except (OSError, ValueError):
             pass
         meta["confirmation"] = res
+        if res.get("base"):
+            meta["base"] = res["base"]
         with open(os.path.join(d, "meta.json"), "w") as f:
             json.dump(meta, f, indent=1)
     return res
@@ -82,7 +91,13 @@ def confirm(src, name):
 def detect(name, props):
     d = os.path.join(SEEDED, name)
     wt = "/tmp/detect_%s" % name
-    worktree(wt)
+    base = "HEAD"
+    try:
+        with open(os.path.join(d, "meta.json")) as f:
+            base = json.load(f).get("base", "HEAD")
+    except (OSError, ValueError):
+        pass
+    worktree(wt, base)
     out = {}
     try:
         rc, o = sh(["git", "-C", wt, "apply", os.path.join(d, "patch.diff")])
